@@ -16,7 +16,7 @@
   OBLIGATIONS (audited by `check` with `#print axioms`):
     attempts_bounded, backoff_monotone_bounded, delay_next_monotone_bounded, callbacks_fire_once,
     callbacks_fire_once_nodup, callbacks_fire_bounded, empty_callbacks_fire_bounded, later_batches_processed,
-    drain_on_close, wait_timeout_within_budget, blocking_entry_total_partial
+    drain_on_close, wait_timeout_within_budget, send_or_wait_within_budget, blocking_entry_total_partial
 -/
 import EmitModel.Lemmas.BatcherLive
 
@@ -163,6 +163,58 @@ theorem wait_timeout_within_budget (δ timeout : Nat) (flag0 : Bool) (wakes : Li
             omega
           · simp only [hl, if_false]; exact hle
         · simp only [Bool.not_true, Bool.false_eq_true, if_false]; exact hle
+
+/-- **`send_or_wait` returns within its budget** (remaining-time accounting of the loop, lib.rs:236-253): every
+    wait round is asked for `timeout - elapsed`, so if every wait returns within the time it was asked for plus a
+    slack `δ`, every clock reading the loop takes — in particular the one at which the call returns — is at most
+    `timeout + δ`, however often the woken sender loses the race for the freed slot. (Granting each round the full
+    `timeout` instead would allow `2·timeout`; stream `batcher_blocking_c08` has the timing cases.) -/
+theorem send_or_wait_within_budget (δ timeout : Nat) (obs : List (Nat × TryRes)) :
+    ∀ (bound : Nat) (err : TryRes) (t : Nat), bound ≤ timeout + δ → sendOrWaitHonest δ timeout bound err obs →
+      sendOrWaitLastReading timeout err obs = some t → t ≤ timeout + δ := by
+  induction obs with
+  | nil => intro bound err t _ _ h; simp [sendOrWaitLastReading] at h
+  | cons p rest ih =>
+    intro bound err t hb hh ht
+    obtain ⟨elapsed, next⟩ := p
+    unfold sendOrWaitHonest at hh
+    obtain ⟨hle, hrest⟩ := hh
+    have he : elapsed ≤ timeout + δ := Nat.le_trans hle hb
+    cases err with
+    | ok => simp [sendOrWaitLastReading] at ht
+    | closed => simp [sendOrWaitLastReading] at ht; omega
+    | full x =>
+      simp only [sendOrWaitLastReading] at ht
+      simp only at hrest
+      by_cases hge : elapsed ≥ timeout
+      · simp [hge] at ht; omega
+      · simp only [hge, if_false] at ht hrest
+        cases next with
+        | ok => simp at ht; omega
+        | full y =>
+          simp only at ht hrest
+          cases hr : sendOrWaitLastReading timeout (.full y) rest with
+          | none => simp [hr] at ht; omega
+          | some t' =>
+            simp [hr] at ht
+            have := ih (elapsed + (timeout - elapsed) + δ) (.full y) t' (by omega) hrest hr
+            omega
+        | closed =>
+          simp only at ht hrest
+          cases hr : sendOrWaitLastReading timeout .closed rest with
+          | none => simp [hr] at ht; omega
+          | some t' =>
+            simp [hr] at ht
+            have := ih (elapsed + (timeout - elapsed) + δ) .closed t' (by omega) hrest hr
+            omega
+
+/-- the timing case of stream `batcher_blocking_c08`: woken at 0.7·T, the slot is gone, the second wait is asked
+    for the remaining 0.3·T — the item is handed back at T -/
+example : sendOrWait 500 (.full 9) [(0, .full 9), (350, .full 9), (500, .full 9)] = some (.handedBack 9) ∧
+    sendOrWaitLastReading 500 (.full 9) [(0, .full 9), (350, .full 9), (500, .full 9)] = some 500 ∧
+    sendOrWaitHonest 0 500 0 (.full 9) [(0, .full 9), (350, .full 9), (500, .full 9)] := by
+  refine ⟨by decide, by decide, ?_⟩
+  simp [sendOrWaitHonest]
 
 /-- **The blocking entry points are total in every calling context** (decision table, after fix D3): whichever
     module's `blocking_flush` / `blocking_send` is called from a plain thread, a worker of a tokio multi-thread
